@@ -38,8 +38,9 @@ FILE = {"absent": "out.json", "existing": "exist.json", "dir": "adir", "symlink-
         "symlink-rel-in-subdir": os.path.join("sub", "rel_lnk"), "symlink-up": os.path.join("sub", "up_lnk"),
         "symlink-abs-to-file": "abs_lnk", "symlink-to-dir": "dir_lnk", "existing-dotdot": os.path.join("sub", "..", "exist.json"),
         "absent-in-subdir": os.path.join("sub", "new.json"),
-        "absent-trailing-slash": "fresh.json/", "symlink-loop": "loop_lnk", "dangling-into-missing-dir": "dang2"}
-PRECIOUS = ("exist.json", "keep.json", "lnk", "adir", "rel_lnk", "up_lnk", "abs_lnk", "dir_lnk")
+        "absent-trailing-slash": "fresh.json/", "symlink-loop": "loop_lnk", "dangling-into-missing-dir": "dang2",
+        "absent-no-extension": "paper"}
+PRECIOUS = ("exist.json", "keep.json", "lnk", "adir", "rel_lnk", "up_lnk", "abs_lnk", "dir_lnk", "paper.json", "paper.txt")
 PW = {"none": None, "ascii": "pw", "nfkd-sensitive": "p\u00e4ss\ufb01\uff11\u2126", "blank-padded": "  two  blanks ", "empty": "",
       "json-like": '[ a ] { "k" : [ 1 , 2 ] } \\ "q" ,\n\t: [\n    x\n]',
       "at-existing-file": "@exist.json"}
@@ -118,6 +119,9 @@ def make_dir():
     os.symlink("adir", os.path.join(d, "dir_lnk"))
     os.symlink("loop_lnk", os.path.join(d, "loop_lnk"))
     os.symlink(os.path.join("nodir2", "target.json"), os.path.join(d, "dang2"))
+    for nm in ("paper.json", "paper.txt", "paper.json.json"):           # neighbours of the suffix-less name "paper"
+        with open(os.path.join(d, nm), "w") as f:
+            f.write("PRECIOUS NEIGHBOUR %s\n" % nm)
     # bystanders: files an export routine might use as scratch next to the requested name (temporary, backup, lock,
     # editor-swap names of every creatable target) - they exist already and are somebody's data
     for target in ("out.json", os.path.join("sub", "new.json"), "nowhere.json"):
@@ -255,6 +259,11 @@ def observe(vec, mode, password=None):
     try:
         before = snapshot(d)
         args = argv_of(vec, password)
+        # where a file may appear: at the path that was asked for (for a link: at the place it names), nowhere else
+        wanted = set()
+        if vec.get("file", "none") != "none" and FILE[vec["file"]]:
+            wanted.add(os.path.normpath(FILE[vec["file"]]))
+            wanted.add(os.path.relpath(os.path.realpath(os.path.join(d, FILE[vec["file"]])), os.path.realpath(d)))
         code, out, err, opened = (run_inprocess if mode == "inprocess" else run_subprocess_closed_stdout if mode == "closedpipe"
                                   else run_subprocess)(args, d)
         after = snapshot(d)
@@ -293,6 +302,7 @@ def observe(vec, mode, password=None):
             equals = False
         obs = {"exit": 0 if code == 0 else 1, "raw_exit": code if isinstance(code, int) else 1, "timed_out": code == "timeout", "stdout": cls, "content": content,
                "created": bool(created), "overwrote": bool(changed or removed), "fs_changed": bool(created or changed or removed),
+               "created_elsewhere": any(k not in wanted and not any(w_.startswith(k + os.sep) for w_ in wanted) for k in created),
                "net": net, "rowpaths": rowpaths, "equals_api": bool(equals),
                "opened_existing": [o for o in opened if os.path.basename(o) in PRECIOUS]}
         if obs["opened_existing"]:
